@@ -1,7 +1,32 @@
 """C13 - Interactive parser: forks independent, accepts() exact, resume equals parse."""
 import copy as _copy
+import signal
+from contextlib import contextmanager
 
 from lib import coq_list as L
+
+
+class Hang(BaseException):
+    """an operation of the implementation did not return within the time limit (BaseException: the `except Exception`
+    clauses around the implementation calls must not swallow it)"""
+
+
+def _on_alarm(signum, frame):
+    raise Hang()
+
+
+HANG_SECS = 30
+
+
+@contextmanager
+def watchdog(secs=HANG_SECS):
+    old = signal.signal(signal.SIGALRM, _on_alarm)
+    signal.setitimer(signal.ITIMER_REAL, secs)
+    try:
+        yield
+    finally:
+        signal.setitimer(signal.ITIMER_REAL, 0)
+        signal.signal(signal.SIGALRM, old)
 
 
 def N(n):
@@ -10,8 +35,10 @@ def N(n):
 THEOREMS = ['C13_feed_eq_parse', 'C13_fork_separation', 'C13_fork_result_eq_parse', 'C13_trial_feed_pure',
             'C13_accepts_exact', 'C13_accepts_exact_table', 'C13_resume_eq_parse_rest', 'C13_resume_on_fork',
             'C13_default_copies_are_deep', 'C13_shallow_fork_aliasing_refuted', 'C13_shared_meta_refuted',
-            'C13_resume_shared_lexer_refuted', 'C13_example_deep']
-GEN_DEPS = ['InterHoles']
+            'C13_resume_shared_lexer_refuted', 'C13_example_deep',
+            'C13_feed_control_regenerated', 'C13_feed_control_regenerated_table', 'C13_value_slices_regenerated',
+            'C13_copy_regenerated', 'C13_example_regenerated']
+GEN_DEPS = ['InterHoles', 'LalrHoles']
 RULE = ('random LALR grammars over 8 terminals (each token carries a unique number in its text) with `_`-inlined '
         'left/right-recursive rules (ChildFilterLALR in-place path), `?`-rules, `!`-rules, aliases, [x] placeholders, '
         'propagate_positions / maybe_placeholders / basic|contextual lexer switched at random; stream fork-trees: random '
@@ -407,7 +434,11 @@ def witness_resume_lexer():
 def run_witness(fn, name):
     """a witness that raises (e.g. because forks share their state stack) also counts as reproduced"""
     try:
-        return fn()
+        with watchdog():
+            return fn()
+    except Hang:
+        return {'which': {'regress-meta-A': 'A', 'regress-meta-B': 'B', 'regress-resume-lexer': 'R'}[name],
+                'exception': 'did not return within %d s' % HANG_SECS}
     except Exception as e:  # noqa
         return {'which': {'regress-meta-A': 'A', 'regress-meta-B': 'B', 'regress-resume-lexer': 'R'}[name],
                 'exception': '%s: %s' % (type(e).__name__, str(e)[:200])}
@@ -774,6 +805,38 @@ class TreeRun:
             if not self.fail:
                 self.op_feed(i - 1, '$END')
 
+    def run_accepts_sweep(self, types, imm_at=None):
+        """one parser fed a token sequence, accepts() before every token, after every token (also after an unexpected
+        one, where the reductions done under that look-ahead stay) and before $END; from position imm_at on through an
+        immutable parser (every feed creates a new one)"""
+        cur = 0
+        self.op_accepts(cur)
+        for k, ty in enumerate(types):
+            if self.fail or len(self.forks) >= 14:
+                break
+            if imm_at is not None and k == imm_at:
+                self.op_copy(cur, 'imm')
+                cur = len(self.forks) - 1
+            f = self.forks[cur]
+            if f.py is None or f.done:
+                break
+            acc_terms = {t for t in f.py.choices() if t.isupper()}
+            kd = self.op_feed(cur, ty)
+            if self.fail:
+                break
+            if f.imm:
+                cur = len(self.forks) - 1
+                if self.forks[cur].py is None:
+                    break
+            if kd == KERROR:
+                self.bits.add('error')
+            self.op_accepts(cur)
+            if not self.fail and {t for t in self.forks[cur].py.choices() if t.isupper()} != set(self.forks[cur].py.accepts()):
+                self.bits.add('trial-rejects')     # a key of choices() whose trial feed fails after its reductions
+        f = self.forks[cur]
+        if not self.fail and f.py is not None and not f.done:
+            self.op_feed(cur, '$END')
+
     def run_shallow(self, max_ops):
         """mutable parsers, shallow copies, feeds and accepts only; nothing is asserted (the model is compared)"""
         rng = self.rng
@@ -1061,6 +1124,45 @@ SPECIAL_GRAMMARS = [
 ]
 
 
+# explicitly EMPTY alternatives reduced in the same chain as (and right after) a non-empty reduction: the reduce loop of
+# feed_token pops nothing for them (`if size:`), so any re-implementation of the loop (accepts(), trial cursors) has to
+# treat size 0 separately
+EMPTY_FAMILY = [
+    'start: a b C\na: A\nb: | B\n',
+    'start: item ox oy\nitem: A | item A\nox: | B\noy: | C\n',
+    'start: item rest\nitem: A\nrest: | _S item rest\n',
+    'start: _l opt D\n_l: _l A | A\nopt: | _S\n',
+    'start: x o D\n?x: A | _L x _R\no: | B\n',
+    'start: a e e2 C\na: A B\ne:\ne2: | D\n',
+    'start: stmt\nstmt: A osemi | stmt A osemi\nosemi: | _S\n',
+]
+
+
+def gen_empty_family(rng):
+    """one more member of the family: a head reduced by a non-empty rule, then 1-3 nullable non-terminals (optional
+    token, nullable tail, always-empty), then possibly a closing terminal"""
+    head = rng.choice(['a: A\n', 'a: A | a A\n', 'a: A B\n', '?a: A | _L a _R\n', '_a: _a A | A\n'])
+    hname = '_a' if head.startswith('_a') else 'a'
+    k = rng.randint(1, 3)
+    toks = ['B', 'C', 'D', '_S', '_T']
+    rng.shuffle(toks)
+    lines, names = [], []
+    for i in range(k):
+        n = 'o%d' % i
+        shape = rng.choice(['opt', 'opt', 'tail', 'empty', 'optr'])
+        if shape == 'opt':
+            lines.append('%s: | %s' % (n, toks[i]))
+        elif shape == 'optr':
+            lines.append('%s: %s |' % (n, toks[i]))
+        elif shape == 'tail':
+            lines.append('%s: | %s %s %s' % (n, toks[i], hname, n))
+        else:
+            lines.append('%s:' % n)
+        names.append(n)
+    close = rng.choice(['', '', ' ' + toks[k], ' ' + toks[k]])
+    return 'start: %s %s%s\n' % (hname, ' '.join(names), close) + head + '\n'.join(lines) + '\n'
+
+
 def new_parser(rng, force_basic=False):
     from lark.exceptions import GrammarError
     for _ in range(50):
@@ -1115,10 +1217,13 @@ def shrink(g, pp, mp, lexer, tr, kind):
         cand = drop_op(script, k)
         budget -= 1
         try:
-            t2 = replay_script(g, pp, mp, lexer, cand, tr.mm, text, oracle=(kind != 'shallow'))
+            with watchdog(10):
+                t2 = replay_script(g, pp, mp, lexer, cand, tr.mm, text, oracle=(kind != 'shallow'))
             bad = t2.fail is not None
         except RuntimeError:
             bad = False
+        except Hang:
+            bad = True
         except Exception:  # noqa
             bad = True
         if bad:
@@ -1131,9 +1236,14 @@ def safely(tr, fn, *a):
     """an exception escaping from the implementation during a run is a failure of that run (a harness
     self-check raises RuntimeError, which is not swallowed)"""
     try:
-        fn(*a)
+        with watchdog():
+            fn(*a)
     except RuntimeError:
         raise
+    except Hang:
+        if not tr.fail:
+            last = tr.script[-1] if getattr(tr, 'script', None) else None
+            tr.fail = ('hang', 'operation %r did not return within %d s' % (last, HANG_SECS))
     except Exception as e:  # noqa
         if not tr.fail:
             tr.fail = ('exception', '%s: %s' % (type(e).__name__, str(e)[:200]))
@@ -1144,7 +1254,7 @@ N_SHRUNK = [0]
 
 def witness(g, pp, mp, lexer, tr, kind):
     script = tr.script
-    if kind in ('tree', 'lexer') and N_SHRUNK[0] < 12:
+    if kind in ('tree', 'lexer') and N_SHRUNK[0] < 12 and not (tr.fail and tr.fail[0] == 'hang'):
         N_SHRUNK[0] += 1
         try:
             script = shrink(g, pp, mp, lexer, tr, kind)
@@ -1173,9 +1283,24 @@ def correspond(ctx):
 
     for gi in range(ngram):
         allow_bad = rng.random() < 0.4
+        fam = False
         if gi < len(SPECIAL_GRAMMARS):
             g, pp, mp, lexer = SPECIAL_GRAMMARS[gi] + TERM_DEFS, True, True, 'basic'
             p = build(g, pp, mp, lexer)
+            ex = Export(p)
+        elif gi < len(SPECIAL_GRAMMARS) + len(EMPTY_FAMILY) + 6:
+            k_ = gi - len(SPECIAL_GRAMMARS)
+            fam = True
+            g = (EMPTY_FAMILY[k_] if k_ < len(EMPTY_FAMILY) else gen_empty_family(rng)) + TERM_DEFS
+            pp, mp, lexer = rng.random() < 0.6, rng.random() < 0.8, rng.choice(['basic', 'contextual'])
+            if allow_bad:
+                lexer = 'basic'
+            from lark.exceptions import GrammarError
+            try:
+                p = build(g, pp, mp, lexer)
+            except GrammarError:
+                ctx.count('empty-family-not-lalr', nontrivial=False)
+                continue
             ex = Export(p)
         else:
             g, pp, mp, lexer, p, ex = new_parser(rng, force_basic=allow_bad)
@@ -1189,6 +1314,19 @@ def correspond(ctx):
                       inplace='inplace' in tr.bits, expand1='expand1' in tr.bits, errors='error' in tr.bits)
             if tr.fail:
                 ctx.violation('fork-trees:' + tr.fail[0], witness(g, pp, mp, lexer, tr, 'tree'), True, tr.fail[1])
+            else:
+                runs.append(('tree', tr))
+        # accepts() at every point of one token sequence (also through an immutable parser)
+        for k_ in range(2):
+            types = gen_sentence(rng, ex, 0.15 if allow_bad else 0.0)
+            tr = TreeRun(rng, p, ex, lexer, allow_bad, mm)
+            safely(tr, tr.run_accepts_sweep, types, (rng.randrange(len(types)) if types and k_ == 1 else None))
+            safely(tr, tr.final_oracle)
+            ctx.count('accepts-sweep', key=(g, pp, mp, tuple(map(tuple, tr.script))),
+                      nontrivial=(len(types) >= 2 and 'result' in tr.bits), trial_rejects='trial-rejects' in tr.bits,
+                      empty_family=fam)
+            if tr.fail:
+                ctx.violation('accepts-sweep:' + tr.fail[0], witness(g, pp, mp, lexer, tr, 'tree'), True, tr.fail[1])
             else:
                 runs.append(('tree', tr))
         # forks that only exist under shallow copies: no property here, the model alone is compared (this is
@@ -1222,8 +1360,9 @@ def correspond(ctx):
                 if not types:
                     continue
                 try:
-                    oe = OnErrorRun(p, ex, text, mm)
-                except Exception as e:  # noqa
+                    with watchdog():
+                        oe = OnErrorRun(p, ex, text, mm)
+                except (Exception, Hang) as e:  # noqa
                     ctx.count('on-error', key=(g, pp, mp, text), nontrivial=False)
                     ctx.violation('on-error:exception', {'kind': 'on_error', 'grammar': g, 'propagate_positions': pp,
                                                         'maybe_placeholders': mp, 'lexer': lexer, 'text': text,
@@ -1285,18 +1424,20 @@ def replay(ctx, case):
     if w.get('kind') == 'on_error':
         p = build(w['grammar'], w['propagate_positions'], w['maybe_placeholders'], w['lexer'])
         try:
-            return OnErrorRun(p, Export(p), w['text'], w.get('meta_mode', 0)).fail is not None
+            with watchdog():
+                return OnErrorRun(p, Export(p), w['text'], w.get('meta_mode', 0)).fail is not None
         except RuntimeError:
             raise
-        except Exception:  # noqa
+        except (Exception, Hang):  # noqa
             return True
     if w.get('kind') in ('tree', 'lexer'):
         try:
-            tr = replay_script(w['grammar'], w['propagate_positions'], w['maybe_placeholders'], w['lexer'],
-                               w['script'], w.get('meta_mode', 0), w.get('text'))
+            with watchdog():
+                tr = replay_script(w['grammar'], w['propagate_positions'], w['maybe_placeholders'], w['lexer'],
+                                   w['script'], w.get('meta_mode', 0), w.get('text'))
         except RuntimeError:
             raise
-        except Exception:  # noqa
+        except (Exception, Hang):  # noqa
             return True
         return tr.fail is not None
     return False
